@@ -363,6 +363,7 @@ func (c *Client) Send(packet stanza.Packet) error {
 	c.sendMu.Lock()
 	defer c.sendMu.Unlock()
 
+	var held *stanza.UnAckQueue // the queue the stanza is put on, if any
 	// Store stanza as non-acked as part of stream management
 	// See https://xmpp.org/extensions/xep-0198.html#scenarios
 	// Without a session (before Connect, after a failed Connect or Resume) there is nothing to hold
@@ -375,10 +376,11 @@ func (c *Client) Send(packet stanza.Packet) error {
 		default:
 			toStore := stanza.UnAckedStz{Stz: string(data)}
 			session.SMState.UnAckQueue.Push(&toStore)
+			held = session.SMState.UnAckQueue
 		}
 	}
 
-	return c.sendWithWriter(c.transport, data)
+	return c.writeHeld(data, held)
 }
 
 // SendIQ sends an IQ set or get stanza to the server. If a result is received
@@ -420,13 +422,26 @@ func (c *Client) SendRaw(packet string) error {
 	c.sendMu.Lock()
 	defer c.sendMu.Unlock()
 
+	var held *stanza.UnAckQueue // the queue the stanza is put on, if any
 	// Store stanza as non-acked as part of stream management
 	// See https://xmpp.org/extensions/xep-0198.html#scenarios
 	if session := c.Session; c.config.StreamManagementEnable && session != nil && !isSMAck(packet) {
 		toStore := stanza.UnAckedStz{Stz: packet}
 		session.SMState.UnAckQueue.Push(&toStore)
+		held = session.SMState.UnAckQueue
 	}
-	return c.sendWithWriter(c.transport, []byte(packet))
+	return c.writeHeld([]byte(packet), held)
+}
+
+// writeHeld writes a packet that Send or SendRaw has just put on the queue of unacknowledged stanzas held (nil:
+// on none). A packet the transport refuses was not sent on the session: the error goes to the caller and the
+// packet leaves the queue again with its sequence number, which the next stanza takes. The caller holds sendMu.
+func (c *Client) writeHeld(packet []byte, held *stanza.UnAckQueue) error {
+	err := c.sendWithWriter(c.transport, packet)
+	if err != nil {
+		held.DropLast()
+	}
+	return err
 }
 
 func (c *Client) sendWithWriter(writer io.Writer, packet []byte) error {
